@@ -13,6 +13,7 @@ CONSTANTS
   Starts <- StartsMC
   RegOffer <- RegNone
   EnvGet <- EnvMC
+  DirGet <- DirMC
   Obs <- ObsEmit
 CONSTRAINT StoreBound
 INVARIANTS TypeOK OutputBounded NeverReadsPastEnd
